@@ -14,7 +14,10 @@ registered = set(subprocess.check_output(['/verif/bin/vcheck', '-list'], text=Tr
 reg = set(l.split()[0] for l in subprocess.check_output(['/verif/bin/vcheck', '-list'], text=True).splitlines())
 sel = sys.argv[1:]
 if sel:
-    idx = [m for m in idx if any(s in m['name'] for s in sel)]
+    # an argument "prop:Cnn" selects the mutants that name that property
+    props = [s[5:] for s in sel if s.startswith('prop:')]
+    names = [s for s in sel if not s.startswith('prop:')]
+    idx = [m for m in idx if any(s in m['name'] for s in names) or any(p in m['props'] for p in props)]
 
 def run(m):
     props = [p for p in m['props'] if p in reg]
